@@ -9,6 +9,7 @@ import json
 import os
 import random
 import re
+import shutil
 import time
 from collections import deque
 from concurrent.futures import ThreadPoolExecutor
@@ -302,6 +303,74 @@ def record_history(Heap, cap, policy, rng, nops, ncost):
     return {"cap": cap, "policy": policy, "init": init, "ops": ops, "fin": {**flags(), "drained": 1}}
 
 
+_ACT = re.compile(r"^\\\* <(\w+)(?:\(([-\d,]*)\))? line")
+_INITKEY = re.compile(r"key = \(([^)]*)\)")
+
+
+def simulated_histories(rep, Heap, cap, policy, num, depth, seed):
+    """Spec -> code: behaviours of PQ generated by `tlc -simulate` (operation sequences in PQ's domain by construction) are
+    replayed into the real Heap; the recorded responses are then judged by PQTrace like any other history.  When the real
+    heap legitimately returns another extremal element than the behaviour's, later operations of the behaviour that are no
+    longer in the domain (element already returned / not queued) are skipped."""
+    d = H.subdir("c05sim-%d-%s" % (cap, policy))
+    cfg = "SPECIFICATION Spec\nCONSTANTS Cap = %d Costs = {0,1,2} policy = \"%s\"\nCHECK_DEADLOCK FALSE\n" % (cap, policy)
+    res = H.run_tlc("PQ", cfg, workers=1, timeout=600, simulate="file=%s/tr,num=%d" % (d, num), depth=depth, seed=seed, tag="pqsim-%d-%s" % (cap, policy))
+    rep.add_tlc("PQ -simulate Cap=%d %s (%d behaviours, depth %d)" % (cap, policy, num, depth), res, kind="behaviour-generation")
+    out = []
+    for fn in sorted(os.listdir(d)):
+        if not fn.startswith("tr_"):
+            continue
+        txt = open(os.path.join(d, fn)).read()
+        m = _INITKEY.search(txt)
+        init = [0] * cap
+        for part in m.group(1).split("@@"):
+            k_, v_ = part.split(":>")
+            init[int(k_)] = int(v_)
+        acts = [(a.group(1), tuple(int(x) for x in a.group(2).split(",")) if a.group(2) else ()) for a in (_ACT.match(l) for l in txt.splitlines()) if a]
+        h = Heap(cap, policy)
+        h.cost = list(init)
+        key, col = list(init), ["W"] * cap
+        better = (lambda a, b: a < b) if policy == "min" else (lambda a, b: a > b)
+        ops = []
+        for name, args in acts[1:]:
+            f = {"em": 1 if h.is_empty() else 0, "fu": 1 if h.is_full() else 0}
+            nq = col.count("G")
+            if name == "SetKey" and col[args[0]] != "G":
+                h.cost[args[0]] = args[1]
+                key[args[0]] = args[1]
+                ops.append({"op": "set", "e": args[0], "c": args[1], "ret": 0, **f})
+            elif name == "Insert" and col[args[0]] == "W" and nq < cap:
+                r = h.insert(args[0])
+                col[args[0]] = "G"
+                ops.append({"op": "ins", "e": args[0], "c": 0, "ret": 1 if r is True else 0, **f})
+            elif name == "InsertFull" and nq == cap:
+                r = h.insert(0)
+                ops.append({"op": "ins", "e": 0, "c": 0, "ret": 0 if r is False else 1, **f})
+            elif name == "Update" and ((col[args[0]] == "W" and nq < cap) or (col[args[0]] == "G" and not better(key[args[0]], args[1]))):
+                h.update(args[0], args[1])
+                key[args[0]] = args[1]
+                col[args[0]] = "G"
+                ops.append({"op": "upd", "e": args[0], "c": args[1], "ret": 0, **f})
+            elif name in ("Remove", "RemoveEmpty"):
+                r = h.remove()
+                rr = -1 if r is False else (int(r) if isinstance(r, int) and not isinstance(r, bool) else -2)
+                ops.append({"op": "rem", "e": 0, "c": 0, "ret": rr, **f})
+                if 0 <= rr < cap:
+                    col[rr] = "B"
+        for _ in range(cap + 1):        # drain
+            f = {"em": 1 if h.is_empty() else 0, "fu": 1 if h.is_full() else 0}
+            if f["em"]:
+                break
+            r = h.remove()
+            rr = -1 if r is False else (int(r) if isinstance(r, int) and not isinstance(r, bool) else -2)
+            ops.append({"op": "rem", "e": 0, "c": 0, "ret": rr, **f})
+            if rr == -1:
+                break
+        out.append({"cap": cap, "policy": policy, "init": init, "ops": ops, "fin": {"em": 1 if h.is_empty() else 0, "fu": 1 if h.is_full() else 0, "drained": 1}})
+    shutil.rmtree(d, ignore_errors=True)
+    return out
+
+
 def judge_histories(rep, cap, policy, traces, tag):
     path = H.write_json(os.path.join(H.subdir("c05"), "hist-%s.json" % tag), traces)
     cfg = open(os.path.join(H.CFG, "PQTrace.tmpl.cfg")).read().replace("@CAP@", str(cap)).replace("@POLICY@", policy)
@@ -378,6 +447,13 @@ def run(tier, seed):
             trs = [record_history(Heap, cap, pol, rng, rng.randrange(10, 60 if cap < 15 else 300), rng.choice([2, 3, 5, 50])) for _ in range(nh)]
             rep.sample({"cap": cap, "policy": pol, "first_ops": trs[0]["ops"][:6]}, limit=3)
             nv += judge_histories(rep, cap, pol, trs, "%d%s" % (cap, pol))
+    # ---- C (ii): behaviours generated by TLC (-simulate) for larger capacities, replayed and judged
+    for cap, pol in ((7, "min"), (10, "max")) + (((10, "min"), (8, "max")) if thorough else ()):   # TLC's simulator refuses states with more than ~100 successors
+        sims = simulated_histories(rep, Heap, cap, pol, 400 if thorough else 80, 80, seed + 11)
+        if len(sims) < 10:
+            raise H.MachineryError("tlc -simulate produced only %d behaviours" % len(sims))
+        rep.count("simulated_behaviours_replayed", len(sims))
+        judge_histories(rep, cap, pol, sims, "sim%d%s" % (cap, pol))
     rep.cov["rule"] = "product states = distinct (abstract PQ state, real heap arrays) pairs reached; histories = random op sequences in PQ's domain with heavy ties"
     rep.assumptions = [
         "TLC, CommunityModules Json/IOUtils",
